@@ -311,10 +311,26 @@ func (vc *VC) builtin(st *State, f *Frame, b *ssa.Builtin, c *ssa.CallCommon, ar
 		base := Bin(sortInt, "+", sliceOff(s), sliceLen(s))
 		var newArr *Term
 		if k, ok := numeral(sliceLen(t)); ok && k <= 8 {
-			newArr = oldArr
+			// a named array with its defining facts (rather than a store term): the ground terms
+			// (select new pos) and the two-way transfer lemma give quantified invariants over the
+			// elements something to match on
+			newArr = vc.fresh("apparr", as)
+			var excl []string
 			for i := 0; i < k; i++ {
-				newArr = Store(newArr, Bin(sortInt, "+", base, IntLit(int64(i))), Select(srcArr, Bin(sortInt, "+", sliceOff(t), IntLit(int64(i))), es))
+				pos := Bin(sortInt, "+", base, IntLit(int64(i)))
+				st.assume(Eq(Select(newArr, pos, es), Select(srcArr, Bin(sortInt, "+", sliceOff(t), IntLit(int64(i))), es)))
+				excl = append(excl, fmt.Sprintf("(not (= ap%d %s))", vc.nfresh, pos.S))
 			}
+			q := fmt.Sprintf("ap%d", vc.nfresh)
+			vc.nfresh++
+			cond := "true"
+			if len(excl) == 1 {
+				cond = excl[0]
+			} else if len(excl) > 1 {
+				cond = "(and " + strings.Join(excl, " ") + ")"
+			}
+			st.assume(T_(sortBool, fmt.Sprintf("(forall ((%s Int)) (! (=> %s (= (select %s %s) (select %s %s))) :pattern ((select %s %s)) :pattern ((select %s %s))))",
+				q, cond, newArr.S, q, oldArr.S, q, newArr.S, q, oldArr.S, q)))
 		} else {
 			newArr = vc.fresh("apparr", as)
 			q := fmt.Sprintf("ai%d", vc.nfresh)
